@@ -216,3 +216,84 @@ theorem paraText_acceptAll (cm : CMap) (p : Para) :
   paraText_quiet cm _ (itemsFrom_quiet _ _ _ (acceptAll_nodes_quiet p.nodes))
 
 end Adeu.Doc
+
+namespace Adeu.Doc
+open Adeu
+
+mutual
+  theorem blocks_quiet (cm : CMap) : ∀ (bs : List Block), (∀ n ∈ allNodesBlocks bs, quietNode n = true) →
+      blocksText false cm bs = blocksText true cm bs
+    | [], _ => by simp only [blocksText]
+    | .para p :: rest, h => by
+      simp only [allNodesBlocks, List.mem_append] at h
+      simp only [blocksText]
+      rw [paraText_quiet cm p (itemsFrom_quiet _ _ _ (fun n hn => h n (Or.inl hn))),
+        blocks_quiet cm rest (fun n hn => h n (Or.inr hn))]
+    | .table pr g rows :: rest, h => by
+      simp only [allNodesBlocks, List.mem_append] at h
+      have hr := rows_quiet cm rows (fun n hn => h n (Or.inl hn))
+      have ht : tableText false cm rows = tableText true cm rows := by
+        unfold tableText; rw [hr]
+      simp only [blocksText, ht, blocks_quiet cm rest (fun n hn => h n (Or.inr hn))]
+    | .other x :: rest, h => by
+      simp only [allNodesBlocks] at h
+      simp only [blocksText]
+      exact blocks_quiet cm rest h
+  theorem rows_quiet (cm : CMap) : ∀ (rows : List Row), (∀ n ∈ allNodesRows rows, quietNode n = true) →
+      rowsCellTexts false cm rows = rowsCellTexts true cm rows
+    | [], _ => by simp only [rowsCellTexts]
+    | .mk pr cells :: rest, h => by
+      simp only [allNodesRows, List.mem_append] at h
+      simp only [rowsCellTexts]
+      rw [cells_quiet cm cells (fun n hn => h n (Or.inl hn)), rows_quiet cm rest (fun n hn => h n (Or.inr hn))]
+  theorem cells_quiet (cm : CMap) : ∀ (cells : List Cell), (∀ n ∈ allNodesCells cells, quietNode n = true) →
+      cellsTexts false cm cells = cellsTexts true cm cells
+    | [], _ => by simp only [cellsTexts]
+    | .mk pr s v blocks :: rest, h => by
+      simp only [allNodesCells, List.mem_append] at h
+      simp only [cellsTexts]
+      rw [blocks_quiet cm blocks (fun n hn => h n (Or.inl hn)), cells_quiet cm rest (fun n hn => h n (Or.inr hn))]
+end
+
+mutual
+  theorem allNodes_mapNodes (f : List Node → List Node) (hf : ∀ ns, ∀ n ∈ f ns, quietNode n = true) :
+      ∀ (bs : List Block), ∀ n ∈ allNodesBlocks (mapNodesBlocks f bs), quietNode n = true
+    | [], n, hn => by simp [mapNodesBlocks, allNodesBlocks] at hn
+    | .para p :: rest, n, hn => by
+      simp only [mapNodesBlocks, allNodesBlocks, List.mem_append] at hn
+      rcases hn with h | h
+      · exact hf p.nodes n h
+      · exact allNodes_mapNodes f hf rest n h
+    | .table pr g rows :: rest, n, hn => by
+      simp only [mapNodesBlocks, allNodesBlocks, List.mem_append] at hn
+      rcases hn with h | h
+      · exact allNodesRows_mapNodes f hf rows n h
+      · exact allNodes_mapNodes f hf rest n h
+    | .other x :: rest, n, hn => by
+      simp only [mapNodesBlocks, allNodesBlocks] at hn
+      exact allNodes_mapNodes f hf rest n hn
+  theorem allNodesRows_mapNodes (f : List Node → List Node) (hf : ∀ ns, ∀ n ∈ f ns, quietNode n = true) :
+      ∀ (rows : List Row), ∀ n ∈ allNodesRows (mapNodesRows f rows), quietNode n = true
+    | [], n, hn => by simp [mapNodesRows, allNodesRows] at hn
+    | .mk pr cells :: rest, n, hn => by
+      simp only [mapNodesRows, allNodesRows, List.mem_append] at hn
+      rcases hn with h | h
+      · exact allNodesCells_mapNodes f hf cells n h
+      · exact allNodesRows_mapNodes f hf rest n h
+  theorem allNodesCells_mapNodes (f : List Node → List Node) (hf : ∀ ns, ∀ n ∈ f ns, quietNode n = true) :
+      ∀ (cells : List Cell), ∀ n ∈ allNodesCells (mapNodesCells f cells), quietNode n = true
+    | [], n, hn => by simp [mapNodesCells, allNodesCells] at hn
+    | .mk pr s v blocks :: rest, n, hn => by
+      simp only [mapNodesCells, allNodesCells, List.mem_append] at hn
+      rcases hn with h | h
+      · exact allNodes_mapNodes f hf blocks n h
+      · exact allNodesCells_mapNodes f hf rest n h
+end
+
+/-- After accept-all the raw view of the main story (paragraphs, nested tables) is its accepted view. -/
+theorem containerText_acceptAll (cm : CMap) (body : List Block) :
+    containerText false cm (acceptAll body) = containerText true cm (acceptAll body) := by
+  unfold containerText acceptAll
+  rw [blocks_quiet cm _ (allNodes_mapNodes _ (fun ns => acceptAll_nodes_quiet ns) body)]
+
+end Adeu.Doc
